@@ -53,6 +53,13 @@ class Tag:
         return Tag(self.i, copy.deepcopy(self.v, memo))
 
 
+class PairTag(tuple):
+    """a 2-tuple (value, number) as a population element; .i / .v give the index / value of the wrapped tag"""
+
+    i = property(lambda self: self[0].i)
+    v = property(lambda self: self[0].v)
+
+
 class UTag(Tag):
     """an element that cannot be hashed (a list, a dict, a dataclass with eq=True ...): still a perfectly good population item"""
 
@@ -76,7 +83,7 @@ def good(draw):
     return {"kind": "good", "id": draw(st.one_of(st.text(alphabet=st.characters(exclude_categories=["Cs"]), max_size=20), st.none(),
                                              st.sampled_from(EXTREME_IDS + ["", "0", " "]))),
             "pop": [draw(_vals) for _ in range(n)], "tuple": draw(st.booleans()), "ws": ws,
-            "unhashable": draw(st.integers(0, 3)) == 0, "wtuple": draw(st.integers(0, 2)) == 0,
+            "unhashable": draw(st.integers(0, 3)) == 0, "wtuple": draw(st.integers(0, 2)) == 0, "pairs": draw(st.integers(0, 4)) == 0,
             # the whole vector scaled by a power of ten (1e-280 .. 1e280): only the shares matter
             "scale_exp": draw(st.sampled_from([0, 0, 0, -17, -100, -280, 20, 100, 280, -30, 15])),
             "c": draw(st.integers(1, max(1, (2 ** 20 - 1) // n))), "seed": draw(st.integers(0, 2 ** 32))}
@@ -96,6 +103,9 @@ def bad(draw):
 
 def _pop(case):
     items = [(UTag if case.get("unhashable") else Tag)(i, v) for i, v in enumerate(case["pop"])]
+    if case.get("pairs"):
+        # elements that are themselves (value, number) pairs - tuples like any others, never to be taken for "item, weight"
+        items = [PairTag((it, [2, 0.5, 0, 7][i % 4])) for i, it in enumerate(items)]
     return tuple(items) if case["tuple"] else items
 
 
